@@ -62,7 +62,7 @@ METHODS = [("GCodeCore", "to_absolute"), ("GCodeCore", "_transform_move"), ("GCo
            ("GCodeCore", "comment"), ("GCodeBuilder", "halt"), ("GCodeBuilder", "wait"), ("GCodeBuilder", "pause"),
            ("GCodeBuilder", "stop"), ("GCodeBuilder", "emergency_halt"), ("GCodeBuilder", "add_hook"), ("GCodeBuilder", "remove_hook"),
            ("GCodeBuilder", "set_length_units")]
-CONTEXTS = [("GCodeCore", "absolute_mode"), ("GCodeCore", "relative_mode")]     # translated as an enter / exit pair
+CONTEXTS = [("GCodeCore", "absolute_mode"), ("GCodeCore", "relative_mode"), ("GCodeBuilder", "move_hook")]     # translated as an enter / exit pair
 ALREADY = {"write", "set_distance_mode", "_update_axes", "tool_off", "coolant_off", "set_resolution"}    # translated by gen_builder.py (Gen/BuilderSrc.lean)
 TYPES = {"PointLike": "Pt", "Point": "Pt", "ParamsDict": "MP"}
 RET = {"None": None, "Point": "Pt", "Tuple[str, ParamsDict]": "SStmt × MP", "Tuple[Point, Point]": "Pt × Pt"}
@@ -718,8 +718,10 @@ class M(gen_builder.T):
     def context_pair(self, cls, name):
         """a `@contextmanager` generator `pre; try: yield; finally: post` as the pair (enter: pre, returns what post needs; exit: post)"""
         gen = self.klass[cls][name]
-        if not any(getattr(d, "id", None) == "contextmanager" for d in gen.decorator_list) or gen.args.args[1:]:
-            fail(gen, f"{name} is not a parameterless @contextmanager")
+        if not any(getattr(d, "id", None) == "contextmanager" for d in gen.decorator_list):
+            fail(gen, f"{name} is not a @contextmanager")
+        if gen.args.args[1:]:
+            return self.context_pair_args(cls, name, gen)
         body = [b for b in gen.body if not (isinstance(b, ast.Expr) and isinstance(b.value, ast.Constant))]
         if not (body and isinstance(body[-1], ast.Try) and not body[-1].handlers and not body[-1].orelse and len(body[-1].body) == 1
                 and isinstance(body[-1].body[0], ast.Expr) and isinstance(body[-1].body[0].value, ast.Yield) and body[-1].body[0].value.value is None):
@@ -737,6 +739,31 @@ class M(gen_builder.T):
                 f"def {cls}.{name}_enter (self : BSt) (h : Rat) : BSt × Except Err (DistanceMode) :=\n{enter}",
                 f"/-- `{cls}.{name}`: leaving the context - the `finally` block, whatever the body did -/\n"
                 f"def {cls}.{name}_exit (self : BSt) (previous : DistanceMode) (h : Rat) : BSt × Option Err :=\n{exit_}"]
+
+    def context_pair_args(self, cls, name, gen):
+        """a `@contextmanager` with arguments that saves nothing: `pre; try: yield; finally: post`, both halves over the arguments"""
+        if gen.returns is None:
+            gen.returns = ast.Constant(value=None)
+        params, _ = self.signature(cls, name)
+        body = [b for b in gen.body if not (isinstance(b, ast.Expr) and isinstance(b.value, ast.Constant))]
+        if not (body and isinstance(body[-1], ast.Try) and not body[-1].handlers and not body[-1].orelse and len(body[-1].body) == 1
+                and isinstance(body[-1].body[0], ast.Expr) and isinstance(body[-1].body[0].value, ast.Yield) and body[-1].body[0].value.value is None):
+            fail(gen, f"{name}: expected `pre; try: yield; finally: post`")
+        pre, post = body[:-1], body[-1].finalbody
+        if any(isinstance(n, ast.Name) and isinstance(n.ctx, ast.Store) for b in pre + list(post) for n in ast.walk(b)):
+            fail(gen, f"{name}: a context manager with arguments is expected to save nothing in local variables")
+        sig, halves = "", []
+        for pn, pty in params:
+            sig += f" ({pn} : {self.lean_ty_m(pty)})"
+        for blk in (pre, list(post)):
+            env = {"$self": "self", "$n": [0], "$ret": None}
+            for pn, pty in params:
+                env[pn] = pty
+            halves.append(self.mblock(list(blk), env, 1, cls))
+        return [f"/-- `{cls}.{name}` (source line {gen.lineno}): entering the context - everything before the `yield` -/\n"
+                f"def {cls}.{name}_enter (self : BSt){sig} (h : Rat) : BSt × Option Err :=\n{halves[0]}",
+                f"/-- `{cls}.{name}`: leaving the context - the `finally` block, whatever the body did -/\n"
+                f"def {cls}.{name}_exit (self : BSt){sig} (h : Rat) : BSt × Option Err :=\n{halves[1]}"]
 
     def lean_ty_m(self, ty):
         return {"VParams": "VParams", "MP": "MP", "Pt": "Pt", "Hook": "Hook"}.get(ty) or self.lean_ty(ty)
